@@ -74,6 +74,8 @@ func Shrink(sc *core.Scenario, fails Failing, budget int) (*core.Scenario, int) 
 			func(c *core.Scenario) bool { if len(c.Schedule) == 0 { return false }; c.Schedule = nil; return true },
 			func(c *core.Scenario) bool { if len(c.Schedule) < 2 { return false }; c.Schedule = c.Schedule[:len(c.Schedule)/2]; return true },
 			func(c *core.Scenario) bool { if c.CancelAt == 0 { return false }; c.CancelAt = 0; return true },
+			func(c *core.Scenario) bool { if c.CancelAtCallback == 0 { return false }; c.CancelAtCallback = 0; return true },
+			func(c *core.Scenario) bool { if c.CancelAtCallback < 2 { return false }; c.CancelAtCallback--; return true },
 			func(c *core.Scenario) bool { if c.DeadlineNs == 0 { return false }; c.DeadlineNs = 0; return true },
 			func(c *core.Scenario) bool { if c.Knobs.MaxCycle == 0 { return false }; c.Knobs.MaxCycle--; return true },
 			func(c *core.Scenario) bool { if c.Knobs.MaxCycle < 2 { return false }; c.Knobs.MaxCycle /= 2; return true },
